@@ -8,7 +8,7 @@ import (
 	"strconv"
 	"strings"
 
-	_ "verif/checks"
+	"verif/checks"
 	"verif/internal/core"
 )
 
@@ -18,6 +18,11 @@ func main() {
 		os.Exit(2)
 	}
 	id := os.Args[1]
+	if id == "__load" && len(os.Args) >= 4 {
+		// child process of C11's strace pass: load one real file with the default reader
+		checks.LoadForStrace(os.Args[2], os.Args[3] == "true")
+		return
+	}
 	fs := flag.NewFlagSet("vcheck", flag.ExitOnError)
 	tier := fs.String("tier", envOr("VERIF_TIER", "quick"), "quick|thorough")
 	seedDefault, _ := strconv.ParseInt(envOr("VERIF_SEED", "1"), 10, 64)
